@@ -9,8 +9,9 @@
    _on_tick also removes a still installed _on_event handler, _on_done removes
    the tick handler whenever one was installed, and processTask continues a
    handler after a thrown TimeoutError exactly as after a CallValue.
-   What is modelled as it is: a generator that raises (GRaise) removes its task
-   without decrementing waitingHandlers and without calling _eventDone.
+   and a handler generator that raises while it is resumed from a call/wait releases both
+   of its waitingHandlers counts (the exception branch of processTask otherwise releases one
+   and runs _eventDone with the error).
 
    One component, one channel.  Events, generators and wait states live in
    append-only tables and are referred to by index.  Event 0 is a dummy ("the
@@ -164,7 +165,7 @@ Definition event_done (tok : nat) (err : bool) (w : world) : world :=
       if e_waiting e =? 0 then
         let w := mod_evt tok inc_gate w in
         let w := if e_alert e then push (QDone tok) w else w in
-        if err then w else push (QSucc tok) w
+        if err || e_errors e then w else push (QSucc tok) w
       else w
   end.
 
@@ -279,7 +280,8 @@ Definition continue_parent (tev p : nat) (how : rkind) (w : world) : world :=
   | GWait nm obj tmo cv => install nm obj tmo cv tev p w
   | GYield v => reg_task (mk_task tev (RGen p) None) (mod_evt tev (fun e => add_oval v (add_wait (-1) e)) w)
   | GStop => reg_task (mk_task tev (RGen p) None) (mod_evt tev (add_wait (-1)) w)        (* except StopIteration, parent set *)
-  | GRaise => mod_evt tev add_err w                                                     (* except BaseException *)
+  | GRaise => event_done tev true (mod_evt tev (fun e => add_wait (-2) (add_err e)) w)  (* except BaseException, parent set:
+                                                                                           the handler and its call are finished *)
   end.
 
 Definition ptask_body (t : task) (w : world) : world :=
@@ -297,7 +299,9 @@ Definition ptask_body (t : task) (w : world) : world :=
           | Some p => reg_task (mk_task tev (RGen p) None) w
           | None => event_done tev false w
           end
-      | GRaise => mod_evt tev add_err (unreg_task t w)
+      | GRaise =>
+          let d := match t_parent t with Some _ => -2 | None => -1 end in
+          event_done tev true (mod_evt tev (fun e => add_wait d (add_err e)) (unreg_task t w))
       end
   | RWait sid =>
       match nth_error (wsts w) sid with
